@@ -7,6 +7,7 @@ import (
 	"sort"
 	"strings"
 	"sync"
+	"sync/atomic"
 	"time"
 
 	"golang.org/x/tools/go/ssa"
@@ -32,9 +33,11 @@ type RunConfig struct {
 	Workers          int
 	XSolvers         []SolverKind
 	TrackOrder       bool
-	RenderMax        int // >0: fixed-precision float verbs render to 4..RenderMax symbolic bytes
+	RenderMax        int   // >0: fixed-precision float verbs render to 4..RenderMax symbolic bytes
 	Prefix           []Dec // run only this path (replay inside the engine)
 	Deadline         time.Time
+	violationsSeen   int64 // violated assertions so far (all workers)
+	unknownSeen      int64 // assertion queries the solver could not decide so far
 }
 
 type WorkerResult struct {
@@ -212,6 +215,26 @@ func runHarness(prog *ssa.Program, cfg *RunConfig) *HarnessResult {
 				}
 				if !cfg.Deadline.IsZero() && time.Now().After(cfg.Deadline) {
 					in.res.Inconclusive = append(in.res.Inconclusive, "deadline reached before all paths were explored")
+					sched.mu.Lock()
+					sched.stop = true
+					sched.cond.Broadcast()
+					sched.mu.Unlock()
+					sched.done()
+					return
+				}
+				if atomic.LoadInt64(&cfg.violationsSeen) >= 2000 {
+					in.res.Inconclusive = append(in.res.Inconclusive, "exploration stopped early: 2000 violated assertions recorded")
+					sched.mu.Lock()
+					sched.stop = true
+					sched.cond.Broadcast()
+					sched.mu.Unlock()
+					sched.done()
+					return
+				}
+				if atomic.LoadInt64(&cfg.violationsSeen) > 0 && atomic.LoadInt64(&cfg.unknownSeen) >= 8 {
+					// counterexamples are in hand and the solver keeps timing out on the rest:
+					// stop here; the unexplored remainder is reported, the violations are replayed
+					in.res.Inconclusive = append(in.res.Inconclusive, "exploration stopped early: violations found and 8 queries undecided by the solver")
 					sched.mu.Lock()
 					sched.stop = true
 					sched.cond.Broadcast()
